@@ -70,11 +70,28 @@ class SymCOO:
     def tocsc(self):
         return self
 
+    def diagonal(self, k=0):
+        """the main diagonal as an array of length n (n possibly symbolic: padded)"""
+        if k != 0:
+            raise px.Unsupported('off-diagonals of a symbolic sparse matrix')
+        n = self.shape[0]
+        cap = n.cap if isinstance(n, SInt) else int(n)
+        vals = [self.entry(u, u) for u in range(cap)]
+        return c14.padded_pa(vals, n, 'f') if isinstance(n, SInt) else dense_pa(vals, 'f')
+
+    def setdiag(self, values, k=0):
+        if k != 0 or not isinstance(values, PA):
+            raise px.Unsupported('setdiag of this form')
+        self.__dict__['_diag'] = list(values.data.reshape(-1))
+
     def __getattr__(self, name):
         raise px.Unsupported('scipy sparse-matrix attribute `%s` of a matrix whose index pattern is symbolic (only entries and the shape are modelled; index '
                              'structures of concrete patterns are computed by the real scipy in O1.assembly_history / O1.assembly_cubic_element)' % name)
 
     def entry(self, u, v):
+        d = self.__dict__.get('_diag')
+        if d is not None and u == v and u < len(d):
+            return d[u]
         L = self.data.length()
         terms = []
         for t in range(self.data.data.shape[0]):
@@ -341,6 +358,15 @@ class HybridNP:
 
     def __getattr__(self, name):
         return getattr(onp, name)
+
+    def any(self, a, axis=None):
+        return ONP().any(a, axis) if isinstance(a, PA) else onp.any(a, axis=axis)
+
+    def all(self, a, axis=None):
+        return ONP().all(a, axis) if isinstance(a, PA) else onp.all(a, axis=axis)
+
+    def where(self, c, a=None, b=None):
+        return ONP().where(c, a, b)
 
     def bincount(self, x, weights=None, minlength=0):
         if not isinstance(weights, PA):
@@ -810,7 +836,7 @@ def prove_atoms(c, name, spec, cap=60, order=('core', 'nlsat'), side=True, extra
             # problem; any model found is a model of the unpinned query as well), then unpinned
             pins = []
             for k, e in zip(c.names, c.example):
-                if k in ('X', 'E', 'nu', 'rho', 'beta', 'dt'):
+                if k in ('X', 'E', 'nu', 'rho', 'beta', 'dt', 'E1', 'nu1', 'E2', 'nu2'):
                     pins += [sym.toz(x) == sym.rat(float(v)) for x, v in zip(flat(c.inp[k]), onp.asarray(e, dtype=float).reshape(-1))]
             st = sym.solve(full + pins + [atom.neg(1e-5)], min(cap, 40), order=('nlsat', 'core'))[0] if pins else 'unknown'
             note = 'free identity not established (%s); decided with the side conditions of the encoding' % rec.get('status')
@@ -1054,6 +1080,73 @@ def _register_o3():
 
 
 _register_o3()
+
+
+# ------------------------------------------------------------------------------------------ O3: two blocks with DIFFERENT materials
+def two_material_case(h, kind, qdeg):
+    """2-element mesh, mesh.blocks = {'left': [0], 'right': [1]}; materialModels = {'right': B, 'left': A} (listed in the REVERSED
+    order): every function of the multi-block factory must pair a material with the elements of the block of the same NAME"""
+    import jax
+    import jax.numpy as jnp
+    from ..jxh import Case
+    S = Setup(2, qdeg)
+    M = _mods()
+    Mech, FS = M[0], M[1]
+    w = max(1, NSTATE[kind])
+
+    def f(X, E1, nu1, E2, nu2, U, Q, dt):
+        fs = S.fs(X, 'cartesian', blocks={'left': jnp.array([0]), 'right': jnp.array([1])})
+        matA, matB = material(kind, E1, nu1), material(kind, E2, nu2)
+        many = Mech.create_multi_block_mechanics_functions(fs, 'plane strain', {'right': matB, 'left': matA})
+        ref = 0.0
+        for mat, el in ((matA, [0]), (matB, [1])):
+            L = Mech.strain_energy_density_to_lagrangian_density(mat.compute_energy_density)
+            ref = ref + FS.integrate_over_block(fs, U, Q, dt, L, jnp.array(el), modify_element_gradient=Mech.plane_strain_gradient_transformation)
+        H = jax.hessian(lambda u: many.compute_strain_energy(u, Q, dt))(U)
+        refstate = jnp.concatenate([Mech._compute_updated_internal_variables(fs, U, Q, dt, mat.compute_state_new, Mech.plane_strain_gradient_transformation)[e:e + 1]
+                                    for e, mat in ((0, matA), (1, matB))])
+        return many.compute_strain_energy(U, Q, dt), ref, H, many.compute_element_stiffnesses(U, Q, dt), many.compute_updated_internal_variables(U, Q, dt), refstate
+    Z = onp.zeros((S.nn, 2))
+    ex = dict(X=S.X0, E1=1.0, nu1=0.3, E2=2.5, nu2=0.1, U=Z + 0.05, Q=onp.zeros((2, S.nq, w)) + 0.1, dt=0.25)
+    smp = lambda rng: [_rand_X(S, rng), rng.uniform(0.5, 2.0), rng.uniform(-0.3, 0.45), rng.uniform(0.5, 2.0), rng.uniform(-0.3, 0.45),
+                       rng.normal(size=(S.nn, 2)) * 0.1, rng.normal(size=(2, S.nq, w)) * 0.1, rng.uniform(0.1, 1.0)]
+    with det_by_closed_form():
+        return Case(h, f, ex, sampler=smp, label='two_materials[%s/q%d]' % (kind, qdeg), ctx=jx_ctx_exact(), validate=2, rtol=1e-7), S
+
+
+def _two_material_spec(S):
+    conns = S.conns
+
+    def spec(i, o):
+        e_many, e_ref, H, K, s_many, s_ref = o
+        box = [v_lt(0.0, s0(i['E1'])), v_lt(0.0, s0(i['E2'])), v_lt(-1.0, s0(i['nu1'])), v_lt(s0(i['nu1']), 0.5), v_lt(-1.0, s0(i['nu2'])), v_lt(s0(i['nu2']), 0.5)]
+        A = {}
+        for e in range(len(conns)):
+            for a in range(3):
+                for k in range(2):
+                    for b in range(3):
+                        for l in range(2):
+                            A.setdefault((int(conns[e][a]), k, int(conns[e][b]), l), []).append(K[e, a, k, b, l])
+        cells = [(n, k, m, l) for n in range(S.nn) for k in range(2) for m in range(S.nn) for l in range(2)]
+        return box, [Eq(s0(e_many), s0(e_ref), name='strain_energy_is_the_sum_of_each_block_material_over_its_own_elements', scale=1.0),
+                     Eq([H[c] for c in cells], [v_sum(A.get(c, [0.0])) for c in cells], name='element_stiffnesses_are_the_hessian_of_the_multi_block_strain_energy', scale=1.0),
+                     Eq(s_many, s_ref, name='state_update_uses_each_block_material_on_its_own_elements', scale=1.0)]
+    return spec
+
+
+@obligation(P, 'O3.multi_block_two_materials', cap=600)
+def o3_two_materials(h):
+    """create_multi_block_mechanics_functions with TWO DIFFERENT materials (symbolic moduli E1, nu1 / E2, nu2) and the materialModels
+    dict listed in the reversed order of mesh.blocks: the strain energy is the sum over blocks of the block's own material over the
+    block's own elements (by name), the element stiffnesses scatter to the Hessian of that factory energy, and the state update
+    uses each block's own material"""
+    _jx_encoded(h)
+    _jx_notes(h)
+    h.bounds('O3 two materials: 2 P1 triangles %s, mesh.blocks = {left: [0], right: [1]}, materialModels = {right: B, left: A}; coordinates, both pairs of moduli, U, state, '
+             'dt: all reals (free identities); materials: Green-Lagrange (3-point rule) and the synthetic state material (3-point rule); plane strain' % (MESHES[2][1],))
+    for kind, q in (('green_lagrange', 2), ('synthetic', 2)):
+        c, S = two_material_case(h, kind, q)
+        prove_atoms(c, 'two_materials[%s]' % kind, _two_material_spec(S), cap=100, side=False)
 
 
 # =========================================================================================== O4: sum rule
